@@ -1,8 +1,286 @@
-import Driver.Proto
-namespace Driver.C13
+/-
+Driver mode `c13` (see harness/c13.cpp for the line format).
 
-def run (_args : List String) : IO UInt32 := do
-  IO.eprintln "driver mode c13: not implemented yet"
-  return 2
+tri-* cases   tie `TriConstraint::slackAtInitial/slackAtFinal/maxSafeAlpha` of the library to
+              Model/Tri.lean.  SPECFAIL iff the step length the library returns for a constraint
+              that is feasible initially and violated finally is *unsafe* (the slack at
+              initial + α(final-initial), computed exactly, is negative beyond rounding: a move by
+              α crosses the segment); every other difference from the model is DIVERGE.
+scene-* cases after every layout step the state is judged by the proven checkers of
+              Check/Topo.lean; for a step that moved the nodes in one axis only, the side
+              signature must equal that of the previous state.  A library abort (its own
+              COLA_ASSERTs, sanitizer reports) is reported together with the checker verdict of
+              the state dumped at the abort.
+-/
+import Driver.Proto
+import AdaptaVerif.Model.Tri
+import AdaptaVerif.Check.Topo
+namespace Driver.C13
+open Driver AdaptaVerif.Num AdaptaVerif.Model.Tri AdaptaVerif.Check.Topo
+
+def absQ (r : Rat) : Rat := if r < 0 then -r else r
+
+/-- decimal rendering with 6 digits for messages -/
+def showQ (r : Rat) : String :=
+  let neg := r < 0
+  let a := absQ r
+  let scaled := (a * 1000000).floor.toNat
+  let ip := scaled / 1000000
+  let fp := scaled % 1000000
+  let fs := toString fp
+  let pad := String.ofList (List.replicate (6 - fs.length) '0')
+  (if neg then "-" else "") ++ toString ip ++ "." ++ pad ++ fs
+
+/-! ### TriConstraint tie -/
+
+structure TriStats where
+  n : Nat := 0
+  bFinal : Nat := 0
+  bZero : Nat := 0
+  bNeg : Nat := 0
+  bRoot : Nat := 0
+  guarded : Nat := 0
+
+def checkTri (c : Case) : CaseResult := Id.run do
+  let exact := c.tag != "tri-float"
+  let mut st : TriStats := {}
+  for l in c.get "t" do
+    if l.size < 12 then
+      return { verdict := .diverge s!"short t line {l}" }
+    let nums := #[l[0]!, l[1]!, l[3]!, l[4]!, l[5]!, l[6]!, l[7]!, l[8]!]
+    match nums? nums, dbl? l[9]!, dbl? l[10]!, dbl? l[11]! with
+    | some v, some dI, some dF, some dM =>
+      let p := v[0]!; let g := v[1]!
+      let left := l[2]! == "1"
+      let u1 := v[2]!; let u2 := v[3]!; let v1 := v[4]!; let v2 := v[5]!; let w1 := v[6]!; let w2 := v[7]!
+      if !(dI.isFinite && dF.isFinite && dM.isFinite) then
+        return { verdict := .diverge s!"non-finite result on {l}" }
+      let sI := slack p g left u1 v1 w1
+      let sF := slack p g left u2 v2 w2
+      let scale := absQ u1 + absQ u2 + absQ v1 + absQ v2 + absQ w1 + absQ w2 + absQ g
+                    + absQ p * (absQ u1 + absQ u2 + absQ v1 + absQ v2) + 1
+      let tol : Rat := if exact then 0 else scale / 1000000000
+      st := { st with n := st.n + 1 }
+      if absQ (dI.val - sI) > tol then
+        return { verdict := .diverge s!"slackAtInitial {l}: model {showQ sI}" }
+      if absQ (dF.val - sF) > tol then
+        return { verdict := .diverge s!"slackAtFinal {l}: model {showQ sF}" }
+      -- spec: a returned step that is used by solve() (0 < α ≤ 1 … α < 1) must be safe
+      let α := dM.val
+      if sI ≥ 0 && sF < 0 && α > 0 then
+        let sα := sI + α * (sF - sI)          -- exact slack after moving by the library's α
+        if sα < -(scale / 1000000000) then
+          return { verdict := .specfail s!"class=unsafe-alpha maxSafeAlpha={showQ α} but slack there is {showQ sα} (initial {showQ sI}, final {showQ sF}): the move crosses the segment; input {l}" }
+      -- model correspondence
+      let br := maxSafeAlphaBranch p g left u1 u2 v1 v2 w1 w2
+      let m := maxSafeAlpha p g left u1 u2 v1 v2 w1 w2
+      let den := msaDen p u1 u2 v1 v2 w1 w2
+      -- float inputs: the code branches on rounded values; compare only when the model's branch
+      -- conditions have a margin
+      let margin : Rat := scale / 10000000
+      let safeToCompare := exact ||
+        (absQ sF > margin && absQ den > margin && absQ (msaNum p g u1 v1 w1) > margin)
+      match br with
+      | .finalFeasible => st := { st with bFinal := st.bFinal + 1 }
+      | .zeroDen => st := { st with bZero := st.bZero + 1 }
+      | .negative => st := { st with bNeg := st.bNeg + 1 }
+      | .root => st := { st with bRoot := st.bRoot + 1 }
+      if !safeToCompare then
+        st := { st with guarded := st.guarded + 1 }
+      else
+        let mtol : Rat := match br with
+          | .root => (absQ m + 1) / 1000000000
+          | .negative => tol
+          | _ => 0
+        if absQ (α - m) > mtol then
+          -- a larger step than the model's on a violated constraint is unsafe: caught above;
+          -- everything else is a broken tie
+          return { verdict := .diverge s!"maxSafeAlpha {l}: model {showQ m} (branch {repr br})" }
+        if !maxSafeAlphaAssertOk p g left u1 u2 v1 v2 w1 w2 then
+          return { verdict := .diverge s!"model says COLA_ASSERT(iSlack>=fSlack) fails but the library returned: {l}" }
+    | _, _, _, _ => return { verdict := .diverge s!"unparsable t line {l}" }
+  match c.get1 "ABORT" with
+  | some l =>
+    let line := (c.lines.filter (fun l => l.size > 0 && l[0]! == "t")).back?.getD #[]
+    return { verdict := .specfail s!"class=crash-tri CRASH inside TriConstraint on valid input (last line {line}): {" ".intercalate l.toList}" }
+  | none => pure ()
+  let branches := (if st.bFinal > 0 then 1 else 0) + (if st.bZero > 0 then 1 else 0)
+                  + (if st.bNeg > 0 then 1 else 0) + (if st.bRoot > 0 then 1 else 0)
+  return { verdict := .ok, nontrivial := branches ≥ 2,
+           stats := [("tri.calls", st.n), ("tri.branch.finalFeasible", st.bFinal),
+                     ("tri.branch.zeroDen", st.bZero), ("tri.branch.negative", st.bNeg),
+                     ("tri.branch.root", st.bRoot), ("tri.guarded", st.guarded)] }
+
+/-! ### scenes -/
+
+structure Snap where
+  kind : String
+  dim : Nat
+  nodes : Array NodeRect
+  paths : Array (List PathPt)
+  deriving Inhabited
+
+def parsePath (ts : Array String) : Option (Nat × List PathPt) := do
+  let e := nat! ts[0]!
+  let mut pts : Array PathPt := #[]
+  let n := (ts.size - 1) / 4
+  for i in [0:n] do
+    let x ← num? ts[1 + 4*i + 2]!
+    let y ← num? ts[1 + 4*i + 3]!
+    pts := pts.push { node := nat! ts[1 + 4*i]!, ri := nat! ts[1 + 4*i + 1]!, x := x, y := y }
+  return (e, pts.toList)
+
+/-- states in stream order; `none` on a malformed line -/
+def parseSnaps (c : Case) (nNodes nEdges : Nat) : Option (Array Snap) := do
+  let mut out : Array Snap := #[]
+  for l in c.lines do
+    if l.size == 0 then continue
+    if l[0]! == "S" then
+      out := out.push { kind := l[1]?.getD "?", dim := nat! (l[2]?.getD "2"),
+                        nodes := Array.replicate nNodes default, paths := Array.replicate nEdges [] }
+    else if l[0]! == "R" && l.size ≥ 6 && out.size > 0 then
+      let v ← nums? (l.extract 2 6)
+      let i := nat! l[1]!
+      let s := out.back!
+      if i < s.nodes.size then
+        out := out.pop.push { s with nodes := s.nodes.set! i ⟨v[0]!, v[1]!, v[2]!, v[3]!⟩ }
+    else if l[0]! == "P" && l.size ≥ 2 && out.size > 0 then
+      let (e, pts) ← parsePath (l.extract 1 l.size)
+      let s := out.back!
+      if e < s.paths.size then
+        out := out.pop.push { s with paths := s.paths.set! e pts }
+  return out
+
+/-- first violated state invariant, as (check name, detail, edge, leg, node) -/
+def firstViolation (ends : Array (Nat × Nat)) (s : Snap) : Option (String × String × Nat × Nat × Nat) := Id.run do
+  let nodes := s.nodes.toList
+  if !noNodeOverlap nodes then
+    match firstOverlap nodes with
+    | some (i, j) => return some ("node-overlap", s!"nodes {i} and {j} overlap", 0, 0, i)
+    | none => return some ("node-overlap", "?", 0, 0, 0)
+  for e in [0:s.paths.size] do
+    let path := s.paths[e]!
+    let (src, dst) := ends[e]!
+    if !endsUnchanged nodes src dst path then
+      return some ("ends-changed", s!"edge {e} no longer runs centre({src}) → centre({dst})", e, 0, 0)
+    if !noSegmentThroughNode nodes path then
+      match firstSegThroughNode nodes path with
+      | some (j, k) => return some ("seg-through-node", s!"edge {e} segment {j} of {path.length - 1} passes through node {k}", e, j, k)
+      | none => return some ("seg-through-node", s!"edge {e}", e, 0, 0)
+    if !bendsAtCorners nodes path then
+      let j := (firstBadBend nodes path).getD 0
+      let v := path.getD j default
+      return some ("bad-bend", s!"edge {e} bend {j} (node {v.node} corner {v.ri}) is not a tight bend around its node", e, j, v.node)
+  return none
+
+def rangesOverlap (a0 a1 b0 b1 : Rat) : Bool := a0 < b1 && b0 < a1
+
+/-- geometric fingerprint of a segment-through-node failure: is the offending segment attached to
+    the CENTRE of an end node `s` whose extent (in the axis orthogonal to the move) overlaps that of
+    the pierced node?  Then the scan-line "visibility" test of
+    `NodeEvent::createStraightConstraints` treated `s` as blocking the pierced node from the
+    segment, although the segment runs inside `s`. -/
+def endNodeShadow (s : Snap) (e j k : Nat) : Bool :=
+  let path := s.paths[e]!
+  let a := path.getD j default
+  let b := path.getD (j + 1) default
+  let nk := s.nodes[k]!
+  let test (q : PathPt) : Bool :=
+    q.ri == 4 &&
+      (let ns := s.nodes[q.node]!
+       (s.dim != 1 && rangesOverlap nk.minY nk.maxY ns.minY ns.maxY) ||
+       (s.dim != 0 && rangesOverlap nk.minX nk.maxX ns.minX ns.maxX))
+  test a || test b
+
+/-- did edge `e` have, in state `s`, a segment parallel to the axis of the coming move (equal
+    coordinates in the orthogonal axis, 1e-6)?  Such segments get no scan-line events and no
+    StraightConstraints; bends next to them degenerate when the two corners slide past each other. -/
+def hasParallelLeg (s next : Snap) (e : Nat) : Bool :=
+  (legs (s.paths[e]!)).any fun ab =>
+    (next.dim != 1 && absQ (ab.1.y - ab.2.y) ≤ eps) || (next.dim != 0 && absQ (ab.1.x - ab.2.x) ≤ eps)
+
+def abortClass (txt : String) : String :=
+  if (txt.splitOn "NoIntersection").length > 1 then "assert-segment-rect-intersection"
+  else if (txt.splitOn "assertConvexBend").length > 1 then "assert-convex-bend"
+  else if (txt.splitOn "noOverlaps").length > 1 then "assert-no-overlaps"
+  else if (txt.splitOn "assertFeasible").length > 1 then "assert-feasible"
+  else if (txt.splitOn "Assertion").length > 1 then "assert-other"
+  else if (txt.splitOn "LeakSanitizer").length > 1 then "leak"
+  else if (txt.splitOn "AddressSanitizer").length > 1 then "asan"
+  else if (txt.splitOn "runtime error").length > 1 then "ubsan"
+  else "abort-other"
+
+def checkScene (c : Case) : CaseResult := Id.run do
+  let nNodes := nat! (((c.get1 "N").getD #["0"])[0]!)
+  let endsL := c.get "E"
+  let ends : Array (Nat × Nat) := endsL.map fun l => (nat! l[1]!, nat! l[2]!)
+  let abortTxt : Option String := (c.get1 "ABORT").map fun l => " ".intercalate l.toList
+  match parseSnaps c nNodes ends.size with
+  | none => return { verdict := .diverge "unparsable state line" }
+  | some snaps =>
+    if snaps.size == 0 then
+      return { verdict := .ok, nontrivial := false, stats := [("scene.empty", 1)] }
+    -- preconditions: the initial scene must itself satisfy the invariants
+    match firstViolation ends snaps[0]! with
+    | some (name, _, _, _, _) =>
+      -- not a verdict on the library: the generator is expected to keep this counter at 0
+      return { verdict := .ok, nontrivial := false,
+               stats := [("scene.invalid-initial", 1), ("scene.invalid-initial." ++ name, 1)] }
+    | none => pure ()
+    let mut nStates := 0
+    let mut nLegs := 0
+    let mut nBends := 0
+    let mut structural := 0      -- steps in which some path gained / lost a bend
+    let mut sigChecks := 0
+    for i in [1:snaps.size] do
+      let s := snaps[i]!
+      let prev := snaps[i-1]!
+      nStates := nStates + 1
+      for e in [0:s.paths.size] do
+        nLegs := nLegs + (s.paths[e]!.length - 1)
+        nBends := nBends + (s.paths[e]!.length - 2)
+        if s.paths[e]!.length != prev.paths[e]!.length then structural := structural + 1
+      let where_ := s!"step {i} ({s.kind}, axis {s.dim}) of {snaps.size - 1}"
+      let ab := if s.kind == "abort" then
+          s!"; library aborted: {abortTxt.getD "?"}" else ""
+      -- a state dumped at an abort inside applyResizes mixes the original rectangles with
+      -- paths pinned to the temporary lhs/rhs dummy nodes: not judged (reported as crash below)
+      let judge := !(s.kind == "abort" && s.dim == 2)
+      match (if judge then firstViolation ends s else none) with
+      | some (name, detail, e, j, k) =>
+        let cls :=
+          if name == "seg-through-node" then
+            (if endNodeShadow s e j k then "endnode-visibility" else "seg-through-node")
+          else if name == "bad-bend" && hasParallelLeg prev s e then "bad-bend-after-parallel-segment"
+          else name
+        return { verdict := .specfail s!"class={cls} {where_}: {detail}{ab}",
+                 stats := [("scene.fail." ++ cls, 1)] }
+      | none => pure ()
+      -- side signature for single-axis steps
+      if s.dim < 2 then
+        for e in [0:s.paths.size] do
+          let sa := sideSignature s.dim prev.nodes.toList prev.paths[e]!
+          let sb := sideSignature s.dim s.nodes.toList s.paths[e]!
+          sigChecks := sigChecks + 1
+          if sa != sb then
+            let k := (firstSigDiff sa sb).getD 0
+            return { verdict := .specfail s!"class=side-changed {where_}: edge {e} passes node {k} on a different side: crossings before/at centre {sa.getD k (0,0)} → {sb.getD k (0,0)}{ab}",
+                     stats := [("scene.fail.side-changed", 1)] }
+    match abortTxt with
+    | some txt =>
+      -- the library stopped itself (its own invariant checks / a sanitizer) although every state
+      -- we saw passes our checkers: still a failing input (CRASH)
+      let inResize := snaps.back!.kind == "abort" && snaps.back!.dim == 2
+      let cls := (if inResize then "resize-" else "") ++ abortClass txt
+      return { verdict := .specfail s!"class=crash-{cls} CRASH after {snaps.size - 1} states, all of which pass the state checkers: {txt}",
+               stats := [("scene.fail.crash-" ++ cls, 1)] }
+    | none => pure ()
+    return { verdict := .ok, nontrivial := structural > 0,
+             stats := [("scene.states", nStates), ("scene.legs", nLegs), ("scene.bends", nBends),
+                       ("scene.structural-steps", structural), ("scene.signature-checks", sigChecks),
+                       ("scene.nodes", nNodes), ("scene.edges", ends.size)] }
+
+def run (_args : List String) : IO UInt32 :=
+  runCases (fun c => if c.tag.startsWith "tri" then checkTri c else checkScene c)
 
 end Driver.C13
